@@ -152,6 +152,10 @@ def check_lifecycle(res, man, layer, final=True):
     # ---- resets
     for r in man.resets:
         if not r["completed"]:
+            # a reset running inside one of the spa's own tasks (the ping loop's recovery reset) is legitimately cut short when
+            # another reset, started meanwhile from a different task, cancels that task and finishes the job itself
+            if any(o is not r and o["completed"] and o["task"] != r["task"] and o["t0"] <= r["t1"] <= o["t1"] + 0.1 for o in man.resets):
+                continue
             res.fail("C08|reset-aborted", f"[{layer}] async_reset() called from {r['task']} did not complete: state={r['state'].name} "
                      f"facade={r['facade']} spa={r['spa']} descriptors={r['descriptors']}")
             continue
